@@ -63,6 +63,7 @@ SubstArg(a, d, body) ==
   CASE a.t = "ref"  -> IF a.k = d THEN body ELSE a
     [] a.t = "list" -> ListA([i \in DOMAIN a.xs |-> SubstArg(a.xs[i], d, body)])
     [] a.t = "call" -> CallA(a.f, [i \in DOMAIN a.xs |-> SubstArg(a.xs[i], d, body)])
+    [] a.t = "dict" -> DictA(a.ks, [i \in DOMAIN a.xs |-> SubstArg(a.xs[i], d, body)])
     [] OTHER        -> a
 
 BodyOf(n) == IF n.kind = "task" THEN CallA(n.f, n.args) ELSE n.args[1]
